@@ -100,6 +100,26 @@ needs = {
 "C19-6": ("GetRandomPositiveInt acceptance test flipped to lessThan.Cmp(try) != -1", "the raw draw equals the bound (probability about 1/(b+1) for tiny bounds that are not 2^k-1)"),
 "C20-5": ("GetCurveName compares curve objects by identity", "ed25519 points that did not come out of json.Unmarshal (tss.Edwards() builds a new object per call): fresh key data cannot be serialised"),
 "C20-6": ("ECDSA signing LocalParty.Update wipes secrets (incl. the aliased stored Xi) when an update returns an error with culprits", "an ECDSA session without derivation offset aborted by a tampered message: the stored share is 0 afterwards"),
+"C02-5": ("EdDSA ecPointToEncodedBytes takes the sign of X from the wrong byte of the little-endian encoding (bit 248 instead of bit 0)", "a group key whose X has bit 248 different from bit 0 (half of all keys; the fixture key is in the other half): every signing session aborts"),
+"C02-6": ("EdDSA BuildLocalSaveDataSubset keys its map by kj.Text(16) while the lookup uses hex.EncodeToString", "a signer whose party key's first byte is below 0x10 (small ids, 1 random key in 16): NewLocalParty panics"),
+"C09-5": ("ProofFac.Verify reduces the caller's s and t in place", "ECDSA keygen with the factorisation proof on and >= 3 parties: the per-peer verifier goroutines race on the shared NTilde/h1/h2 (race detector)"),
+"C09-6": ("ECDSA signing WaitingFor filters into Ps[:0] (the peer context's own party list)", "WaitingFor polled mid-round while a lower-indexed party is already ok: the shared committee list is rewritten"),
+"C10-5": ("DLN Verify reads the challenge bits from a left-aligned 32-byte copy of the digest", "a challenge digest with a leading zero byte (1 honest proof in 256)"),
+"C10-6": ("Paillier key Proof.Verify computes y_i^N in place in the caller's proof elements", "the same proof object verified a second time, or encoded after a verification"),
+"C11-5": ("HomoMult multiplier guard rewritten as m.Cmp(N) > 0", "the multiplier exactly N"),
+"C11-6": ("mod proof challenge helper with a value receiver: all 80 challenges are the same", "a cheating prover that retries W until the single challenge is answerable (N = pqr, or q = 5 mod 8)"),
+"C13-5": ("AliceEnd / AliceEndWC copy cA, cB through SetBytes(Bytes()): the sign is lost", "cB altered to -cB"),
+"C13-6": ("BobMid / BobMidWC reduce the received cA modulo N^2 first", "cA altered to cA + k*N^2"),
+"C14-5": ("Encrypt draws its randomness with GetRandomPositiveInt instead of the coprime sampler", "the drawn x is 0 or shares a factor with N: tiny keys, or a source whose first block encodes P, Q, kP or 0"),
+"C14-6": ("HomoAdd's second guard tests c1's sign instead of c2's", "a negative second operand"),
+"C15-5": ("vss.Create checks the ids against the process-global curve's order", "edwards25519 with the global curve left at secp256k1: ids q, 2q, a and a+q are dealt"),
+"C15-6": ("ECPoint.Equals compares Y with itself (third independent occurrence of this slip)", "secp256k1, the share negated modulo q"),
+"C16-5": ("SHA512_256i_TAGGED caches the tag digest under the tag cut / zero-padded to 32 bytes", "tags longer than 32 bytes that share their first 32 bytes (ssid||i vs ssid||j), or differing by trailing zero bytes"),
+"C16-6": ("HashCommitDecommit remembers a successful opening in an unexported flag", "the second use of one object (or a struct copy) after its exported C / D were reassigned"),
+"C17-5": ("EightInvEight returns the receiver unchanged when x == 0", "the order-2 point (0, p-1) only"),
+"C17-6": ("ECPoint.Add takes a doubling fast path on equal x alone", "operands that share x and differ in y: P + (-P)"),
+"C18-5": ("DeriveChildKey builds the parent point without the curve check", "invalid parents whose sum with IL*G is on the curve: the identity written (0,0), (x, y-p), (x, -y)"),
+"C18-6": ("DeriveChildKeyFromHierarchy shadows err inside its loop", "a refused level (hardened index, depth 255) anywhere in a multi-level path: the path is silently truncated"),
 }
 conf = {}
 for f in glob.glob('/tmp/seed-confirm/*.result'):
